@@ -362,7 +362,8 @@ func runPhase(bin, scratch, prop, tier string, seed uint64, ph phase, known stri
 			defer wg.Done()
 			from := ph.from + w
 			var parts []string
-			for attempt := 0; attempt < 40; attempt++ {
+			budget := ph.wall
+			for attempt := 0; attempt < 400; attempt++ {
 				out := outs[w]
 				if attempt > 0 {
 					out = fmt.Sprintf("%s.%d", outs[w], attempt)
@@ -370,7 +371,7 @@ func runPhase(bin, scratch, prop, tier string, seed uint64, ph phase, known stri
 				args := []string{"-test.run", "^TestWorker$", "-test.timeout", "6h", "-test.cpu", "1",
 					"-sim.prop", prop, "-sim.tier", tier, "-sim.seed", strconv.FormatUint(seed, 10),
 					"-sim.from", strconv.Itoa(from), "-sim.to", strconv.Itoa(ph.from + ph.runs), "-sim.stride", strconv.Itoa(workers),
-					"-sim.out", out, "-sim.budget", ph.wall.String()}
+					"-sim.out", out, "-sim.budget", budget.String(), "-sim.maxmem", "700"}
 				if o := optString(opts); o != "" {
 					args = append(args, "-sim.opts", o)
 				}
@@ -381,6 +382,21 @@ func runPhase(bin, scratch, prop, tier string, seed uint64, ph phase, known stri
 				logs[w] = string(o)
 				errs[w] = err
 				parts = append(parts, out)
+				if nb, nerr := os.ReadFile(out + ".next"); nerr == nil {
+					// the worker handed over to a fresh process (memory held
+					// by runs whose goroutines are blocked for ever)
+					os.Remove(out + ".next")
+					var next int
+					var used int64
+					if _, e := fmt.Sscanf(string(nb), "%d %d", &next, &used); e == nil && next > from {
+						from = next
+						budget -= time.Duration(used)
+						if budget > time.Second {
+							continue
+						}
+					}
+					break
+				}
 				hb, herr := os.ReadFile(out + ".hang")
 				if herr != nil {
 					break
